@@ -1,5 +1,13 @@
 """C12 - axial expansion preserves assembly height, mesh contiguity and component mass.
 
+Scenario classes added in the continuation round: (a) assemblies whose TOP DUMMY BLOCK CARRIES SOLID components (duct
+around its sodium, handling socket, lifting ring, with / without axial linkage to the block below, with / without a
+designated target): fixture assemblies with a programmatically extended top block, constructor-built assemblies, and the
+fixture loaded from a blueprint copy edited in a scratch directory - visited by every stream (top_pool); (b) ONE
+ExpansionData re-used for successive steps (run_reuse: setAssembly once, then setExpansionFactors + axiallyExpandAssembly
+per step) with exactly 1.0 prescribed after another factor, against a fresh ExpansionData per step, and the function-level
+ties run_store (setExpansionFactors / getExpansionFactor) and run_blocktemps (updateComponentTempsBy1DTempField).
+
 Theorems: lean/ArmiVerif/Props/C12.lean (model lean/ArmiVerif/Model/AxialExp.lean).
 Tie: real pin-type assemblies of armi/tests/detailedAxialExpansion (all assembly types, top dummy block) driven
 through the public entry points performPrescribedAxialExpansion (uniform-per-block, per-component and inverse
@@ -26,7 +34,12 @@ PARTIAL = ("the expansion factors (material correlations, temperature averaging)
            "and tied; TARGET_FLAGS_IN_PREFERRED_ORDER and the Flags constants are data passed to the model; target-component "
            "mass conservation is proved under the explicit linkage hypothesis LowerIsLowerTarget, decidable from the geometry "
            "(lowerIsLowerTarget_of_geometry) - where it fails the unchanged code loses 2-3 % (known finding F9); the radial "
-           "part of thermal expansion (area, density at constant height) is property C03's")
+           "part of thermal expansion (area, density at constant height) is property C03's; ExpansionData's stored factors "
+           "(setExpansionFactors validation and assignment, getExpansionFactor default) and the re-use of one ExpansionData for "
+           "successive steps are inside the model (Store, stepReuse / runReuse, stepFresh / runFresh) and tied call by call and "
+           "history by history; updateComponentTempsBy1DTempField's block averages are inside the model (blockTemps) and tied; "
+           "the material's expansion between two temperatures stays an input; manageCoreMesh is not modelled (its re-meshing is "
+           "property C11's setBlockMesh)")
 ASSUMPTIONS = [
     "component mass = number density x area x parent block height (Component.getMass via getVolume); checked by the "
     "mass clauses of the oracle on every case",
@@ -70,6 +83,193 @@ def fixtures():
             assems.append(a)
     _FIX.update(r=r, assems=assems)
     return _FIX
+
+
+TOP_VARIANTS = ("duct", "socket", "duct+socket", "duct+socket+ring", "duct-target")
+TOP_TAG = {}        # id(assembly template) -> description of its top block's contents
+
+
+def top_tag(a0):
+    return TOP_TAG.get(id(a0), "fluid")
+
+
+def label(a0):
+    t = top_tag(a0)
+    return a0.getType() if t == "fluid" else f"{a0.getType()} [top block: {t}]"
+
+
+def add_top_solids(a, variant, op=16.6, ip=16.0, Thot=450.0):
+    """put SOLID components into the top dummy block of a (copy of a) real assembly: a duct around its sodium (axially
+    linked to the duct of the block below when that has one of the same dimensions), a handling socket / ring (Circles of
+    multiplicity 1: linked to nothing below), optionally designated as the block's expansion target"""
+    from armi.reactor.components.basicShapes import Circle, Hexagon
+
+    T = {"Tinput": 25.0, "Thot": Thot}
+    top = a[-1]
+    if "duct" in variant:
+        top.add(Hexagon("duct", "HT9", op=op, ip=ip, mult=1.0, **T))
+    if "socket" in variant:
+        top.add(Circle("handling socket", "HT9", od=6.0, id=4.0, mult=1.0, **T))
+    if "ring" in variant:
+        top.add(Circle("lifting ring", "HT9", od=10.0, id=8.5, mult=1.0, **T))
+    if variant.endswith("-target"):
+        top.p.axialExpTargetComponent = "duct"
+    for c in top:
+        c.clearCache()
+    return a
+
+
+_BP_OLD = """    SodiumBlock: &block_dummy
+        flags: dummy
+        coolant:
+            shape: Hexagon
+            material: Sodium
+            Tinput: 25.0
+            Thot: 450.0
+            ip: 0.0
+            mult: 1.0
+            op: 16.75
+"""
+_BP_SOCKET = """        handling socket:
+            shape: Circle
+            material: HT9
+            Tinput: 25.0
+            Thot: 450.0
+            id: 4.0
+            mult: 1.0
+            od: 6.0
+"""
+_FIX_TOP = {}
+
+
+def fixtures_top(ctx, variant):
+    """the detailedAxialExpansion inputs with a dummy block that carries solids, through the blueprint loader (a copy of
+    the input files edited in a scratch directory); the construction itself expands every assembly from cold to hot, so
+    the clauses about heights are evaluated on the assemblies as loaded, too"""
+    if variant in _FIX_TOP:
+        return _FIX_TOP[variant]
+    import shutil
+    from armi.reactor.tests.test_reactors import loadTestReactor
+    from armi.tests import TEST_ROOT
+
+    new = "    SodiumBlock: &block_dummy\n        flags: dummy\n        coolant: *component_coolant\n"
+    if "duct" in variant:
+        new += "        duct: *component_duct\n"
+    if "socket" in variant:
+        new += _BP_SOCKET
+    if "duct" in variant:
+        new += "        intercoolant: *component_intercoolant\n"
+    else:
+        new += ("        intercoolant:\n            shape: Hexagon\n            material: Sodium\n            Tinput: 25.0\n"
+                "            Thot: 450.0\n            ip: 16.6\n            mult: 1.0\n            op: 16.75\n")
+    if variant.endswith("-target"):
+        new += "        axial expansion target component: duct\n"
+    with common.scratch_dir(), common.quiet():
+        dst = os.path.join(os.getcwd(), "inp")
+        shutil.copytree(os.path.join(TEST_ROOT, "detailedAxialExpansion"), dst)
+        fn = os.path.join(dst, "refSmallReactorBase.yaml")
+        txt = open(fn).read()
+        if _BP_OLD not in txt:
+            raise common.Infra("the dummy block of armi/tests/detailedAxialExpansion is not where the harness expects it")
+        with open(fn, "w") as f:
+            f.write(txt.replace(_BP_OLD, new))
+        _o, r = loadTestReactor(dst)
+    assems, seen = [], set()
+    for a in r.core:
+        key = (a.getType(), tuple(b.getHeight() for b in a))
+        if key not in seen:
+            seen.add(key)
+            assems.append(a)
+            TOP_TAG[id(a)] = "blueprint " + variant
+    _FIX_TOP[variant] = {"r": r, "assems": assems}
+    return _FIX_TOP[variant]
+
+
+def check_as_loaded(ctx, assems, variant):
+    """the construction of a core expands every assembly from its cold input heights to the hot ones
+    (AxialExpansionChanger.expandColdDimsToHot): the clauses about heights on the assemblies AS LOADED from the
+    blueprint whose dummy block carries solids; the total height is that of the same input with the all-fluid dummy"""
+    ref = {a.getType(): a.getTotalHeight() for a in fixtures()["assems"]}
+    for a in assems:
+        case = {"assembly": label(a), "mode": "as loaded from the blueprint"}
+        height_clauses(ctx, case, a, ref.get(a.getType()))
+        ctx.count("assemblies checked as loaded from a blueprint with solids in the dummy block")
+        ctx.case(("as-loaded", label(a), variant), nontrivial=True)
+
+
+def height_clauses(ctx, case, a, H0):
+    """total height, contiguity, height = top - bottom > 0, grid bounds: on the assembly as it is"""
+    if True:
+        blocks = [{"h": float(b.getHeight()), "zb": float(b.p.zbottom), "zt": float(b.p.ztop)} for b in a]
+        if H0 is not None and not fclose(a.getTotalHeight(), H0, 1e-12):
+            ctx.fail("height-preserved", "total assembly height is unchanged", case, observed=a.getTotalHeight(), expected=H0)
+        if H0 is not None and not fclose(blocks[-1]["zt"], H0, 1e-12):
+            ctx.fail("height-preserved-top", "the top of the top block does not move", case, observed=blocks[-1]["zt"], expected=H0)
+        for ib, b in enumerate(blocks):
+            if ib > 0 and b["zb"] != blocks[ib - 1]["zt"]:
+                ctx.fail("contiguous", "each block's bottom is the top of the one below", dict(case, block=ib),
+                         observed=b["zb"], expected=blocks[ib - 1]["zt"])
+            if not fclose(b["zt"] - b["zb"], b["h"], 1e-12):
+                ctx.fail("height-is-top-minus-bottom", "block height = ztop - zbottom", dict(case, block=ib),
+                         observed=b["h"], expected=b["zt"] - b["zb"])
+            if not b["h"] > 0:
+                ctx.fail("heights-positive", "block heights stay positive", dict(case, block=ib), observed=b["h"])
+        bounds = [float(x) for x in a.spatialGrid._bounds[2]]
+        if bounds != [0.0] + [b["zt"] for b in blocks]:
+            ctx.fail("grid-bounds-are-elevations", "axial grid bounds equal the block elevations", case, observed=bounds,
+                     expected=[0.0] + [b["zt"] for b in blocks])
+
+
+def run_cold_to_hot(ctx):
+    """the entry point used while a core is built: AxialExpansionChanger.expandColdDimsToHot on assemblies with all-fluid
+    and with solid-carrying top blocks (every solid grows from its input to its hot temperature; masses increase by
+    design, the clauses about heights must hold)"""
+    from armi.reactor.converters.axialExpansionChanger import AxialExpansionChanger
+
+    pool = fixtures()["assems"] + top_pool(ctx)
+    for a0 in (pool if ctx.thorough else ctx.rng.sample(pool, 5)):
+        a = copy.deepcopy(a0)
+        H0 = a.getTotalHeight()
+        case = {"assembly": label(a0), "mode": "expandColdDimsToHot"}
+        try:
+            with common.quiet():
+                AxialExpansionChanger.expandColdDimsToHot([a], True)
+        except Exception as e:  # noqa
+            ctx.fail("expansion-raises", "a physical expansion of an assembly with a dummy block succeeds", case, observed=repr(e)[:300])
+            continue
+        height_clauses(ctx, case, a, H0)
+        for b in a:
+            if float(b.p.heightBOL) != float(b.getHeight()):
+                ctx.fail("cold-to-hot-records-heights", "the beginning-of-life height of a block is its hot height", case,
+                         observed=float(b.p.heightBOL), expected=float(b.getHeight()))
+        ctx.count("expandColdDimsToHot on an assembly with top block contents: " + top_tag(a0).replace("blueprint ", ""))
+        ctx.case(("cold-to-hot", label(a0)), nontrivial=True)
+
+
+_POOL = {}
+
+
+def top_pool(ctx):
+    """assemblies whose TOP DUMMY BLOCK carries solid components besides its fluid: every fixture assembly type with a
+    programmatically extended top block (one variant each, all variants when thorough) and the assemblies of one
+    (thorough: every) blueprint-edited copy of the inputs"""
+    key = (ctx.seed, ctx.thorough)
+    if key in _POOL:
+        return _POOL[key]
+    out = []
+    for a0 in fixtures()["assems"]:
+        for v in (TOP_VARIANTS if ctx.thorough else [ctx.rng.choice(TOP_VARIANTS)]):
+            a = add_top_solids(copy.deepcopy(a0), v)
+            TOP_TAG[id(a)] = v
+            out.append(a)
+    bps = ("duct", "duct+socket", "socket", "duct-target")
+    for v in (bps if ctx.thorough else [ctx.rng.choice(bps)]):
+        loaded = fixtures_top(ctx, v)["assems"]
+        check_as_loaded(ctx, loaded, v)
+        out += loaded
+    _POOL.clear()
+    _POOL[key] = out
+    return out
 
 
 def solids(b):
@@ -336,8 +536,11 @@ def run_sequences(ctx, nseq, collect):
     fx = fixtures()
     req, chk = collect
     f9_budget = [3, 2]
+    tops = top_pool(ctx)
     for _ in range(nseq):
-        a0 = ctx.rng.choice(fx["assems"])
+        # every third sequence runs on an assembly whose top dummy block carries solid components
+        a0 = ctx.rng.choice(tops) if ctx.rng.random() < 0.34 else ctx.rng.choice(fx["assems"])
+        ctx.count("sequence on an assembly with top block contents: " + top_tag(a0).replace("blueprint ", ""))
         a = copy.deepcopy(a0)
         chg, snapshot, iterSolid = make_changer()
         H0, top0 = a.getTotalHeight(), float(a[-1].p.ztop)
@@ -350,7 +553,10 @@ def run_sequences(ctx, nseq, collect):
             k += 2 if mode == "inverse" else 1
         hist = []
         for mode in steps:
-            solids = [(ib, c) for ib, b in enumerate(a[:-1]) for c in iterSolid(b)]
+            # (the solids of the top block are listed, too, in one call out of three: the top block absorbs the change
+            # by position whatever is prescribed for what it contains)
+            with_top = top_tag(a0) != "fluid" and ctx.rng.random() < 0.34
+            solids = [(ib, c) for ib, b in enumerate(a if with_top else a[:-1]) for c in iterSolid(b)]
             comps = [c for _, c in solids]
             if mode in ("uniform", "inverse"):
                 per = {ib: 1.0 + ctx.rng.randint(-8, 12) / 256.0 for ib in range(len(a))}
@@ -362,7 +568,7 @@ def run_sequences(ctx, nseq, collect):
             start = snapshot(a)
             for sub, pp in subs:
                 before = snapshot(a)
-                case = {"assembly": a0.getType(), "history": list(hist), "mode": sub}
+                case = {"assembly": label(a0), "history": list(hist), "mode": sub}
                 chg.pre = None
                 try:
                     with common.quiet():
@@ -387,7 +593,7 @@ def run_sequences(ctx, nseq, collect):
                             if f9_budget[1] > 0:
                                 f9_budget[1] -= 1
                                 ctx.fail(F9B_KEY, "block heights stay positive under any prescribed percentages",
-                                         {"assembly": a0.getType(), "blocks_with_unaligned_target_link": unaligned},
+                                         {"assembly": label(a0), "blocks_with_unaligned_target_link": unaligned},
                                          observed=repr(e)[:200])
                             break
                     if isinstance(e, ValueError) and "no temperature points" in str(e):
@@ -409,13 +615,13 @@ def run_sequences(ctx, nseq, collect):
                     ctx.fail("prescribed-expansion-changes-mass-before-restacking", "nothing but the re-stacking changes masses", case)
                 safe_request(ctx, case, pre, req, chk, (case, pre, post, [float(x) for x in a.spatialGrid._bounds[2]]))
                 ctx.count(f"expansion mode {sub}")
-                ctx.case(("exp", a0.getType(), tuple(hist), tuple(case.get("percents", case.get("temperature", [])))),
+                ctx.case(("exp", label(a0), tuple(hist), tuple(case.get("percents", case.get("temperature", [])))),
                          nontrivial=True, sample={"case": {k: v for k, v in case.items() if k != "percents"},
                                                   "heights_before": [b["h"] for b in pre], "heights_after": [b["h"] for b in post]})
             else:
                 if mode == "inverse":
                     end = snapshot(a)
-                    case = {"assembly": a0.getType(), "history": list(hist), "mode": "inverse"}
+                    case = {"assembly": label(a0), "history": list(hist), "mode": "inverse"}
                     for ib, (s, e) in enumerate(zip(start, end)):
                         if not fclose(s["h"], e["h"], 1e-9) or not fclose(s["zt"], e["zt"], 1e-9):
                             ctx.fail("inverse-restores-heights", "expanding and applying the inverse change restores heights",
@@ -465,6 +671,43 @@ def run_rejects(ctx, collect):
         ctx.case(("reject", kind), nontrivial=True)
 
 
+def diff_state(line, post, bounds):
+    """None when the model's response line `blocks mesh` equals the real post-state, else a description"""
+    if line in ("reject", "bad-op"):
+        return "model answers " + line
+    blocks_s, mesh_s = line.split(" ")
+    mb = common.parse_list(blocks_s)
+    mm = common.parse_list(mesh_s)
+    bad = None
+    if len(mb) != len(post) or len(mm) != len(bounds):
+        return "shape"
+    for x, y in zip(mm, bounds):
+        if not relclose(y, x, 1e-11):
+            bad = f"grid bounds {y} vs {x}"
+    for ib, (m, p) in enumerate(zip(mb, post)):
+        for name, x, y in (("h", m[0], p["h"]), ("zb", m[1], p["zb"]), ("zt", m[2], p["zt"])):
+            if not relclose(y, x, 1e-11):
+                bad = f"block {ib} {name}: impl {y} model {x}"
+        if ib == len(post) - 1:
+            # the top block absorbs the change BY POSITION: whatever solids it contains are left as they are
+            if len(m[3]) != len(p["comps"]):
+                bad = f"top block component count: impl {len(p['comps'])} model {len(m[3])}"
+            else:
+                for mc, pc in zip(m[3], p["comps"]):
+                    if not relclose(pc["nd"], mc[0], 1e-11):
+                        bad = f"top block comp {pc['name']} nd: impl {pc['nd']} model {mc[0]}"
+            continue
+        if len(m[3]) != len(p["comps"]):
+            bad = f"block {ib} component count"
+            continue
+        for mc, pc in zip(m[3], p["comps"]):
+            for name, x, y in (("nd", mc[0], pc["nd"]), ("height", mc[1], pc["h"]), ("zbottom", mc[2], pc["zb"]),
+                               ("ztop", mc[3], pc["zt"])):
+                if y is None or not relclose(y, x, 1e-11):
+                    bad = f"block {ib} comp {pc['name']} {name}: impl {y} model {x}"
+    return bad
+
+
 def compare(ctx, req, chk):
     model = lean_run("AxialExp", req)
     for (case, pre, post, bounds), line, rq in zip(chk, model, req):
@@ -475,35 +718,52 @@ def compare(ctx, req, chk):
         if line in ("reject", "bad-op"):
             ctx.disagree("Model/AxialExp.lean vs axiallyExpandAssembly", dict(case, request=rq[:300]), line, "ok")
             continue
-        blocks_s, mesh_s = line.split(" ")
-        mb = common.parse_list(blocks_s)
-        mm = common.parse_list(mesh_s)
-        bad = None
-        if len(mb) != len(post) or len(mm) != len(bounds):
-            bad = "shape"
-        else:
-            for x, y in zip(mm, bounds):
-                if not relclose(y, x, 1e-11):
-                    bad = f"grid bounds {y} vs {x}"
-            for ib, (m, p) in enumerate(zip(mb, post)):
-                for name, x, y in (("h", m[0], p["h"]), ("zb", m[1], p["zb"]), ("zt", m[2], p["zt"])):
-                    if not relclose(y, x, 1e-11):
-                        bad = f"block {ib} {name}: impl {y} model {x}"
-                if ib == len(post) - 1:
-                    continue
-                if len(m[3]) != len(p["comps"]):
-                    bad = f"block {ib} component count"
-                    continue
-                for mc, pc in zip(m[3], p["comps"]):
-                    for name, x, y in (("nd", mc[0], pc["nd"]), ("height", mc[1], pc["h"]), ("zbottom", mc[2], pc["zb"]),
-                                       ("ztop", mc[3], pc["zt"])):
-                        if y is None or not relclose(y, x, 1e-11):
-                            bad = f"block {ib} comp {pc['name']} {name}: impl {y} model {x}"
+        bad = diff_state(line, post, bounds)
         if bad:
             ctx.disagree("Model/AxialExp.lean vs axiallyExpandAssembly", dict(case, request=rq[:300]), bad, "see message")
     ctx.evaluations += len(req)
     if req:
         ctx.samples.append({"request": req[0][:400], "model": model[0][:400]})
+
+
+ROUTES = ([], [])    # requests / expectations of the multi-step routes (one store re-used / a fresh store per step)
+
+
+def route_request(route, pre0, steps):
+    """`reuse` / `fresh` request: the state and linkage geometry at setAssembly time + the listed (block, solid) keys and
+    factors of every step"""
+    hs = ratlist([b["h"] for b in pre0])
+    zbs = ratlist([b["zb"] for b in pre0])
+    zts = ratlist([b["zt"] for b in pre0])
+    nds = "[" + ",".join(ratlist([c["nd"] for c in b["comps"]]) for b in pre0) + "]"
+    areas = "[" + ",".join(ratlist([c["area"] for c in b["comps"]]) for b in pre0) + "]"
+    targets = "[" + ",".join("_" if not b["targets"] else str(b["targets"][0]) for b in pre0) + "]"
+    st = "[" + ",".join("[[" + ",".join(f"[{ib},{ic}]" for ib, ic in keys) + "]," + ratlist(fr) + "]" for keys, fr in steps) + "]"
+    return f"{route} {hs} {zbs} {zts} {nds} {areas} {geo_arg(pre0)} {targets} {st}"
+
+
+def compare_routes(ctx):
+    req, chk = ROUTES
+    if not req:
+        return
+    model = lean_run("AxialExp", req)
+    for (case, states), line, rq in zip(chk, model, req):
+        parts = line.split("|") if line else []
+        if len(parts) != len(states):
+            ctx.disagree("Model/AxialExp.lean runReuse / runFresh vs successive steps on the real objects (step count)",
+                         dict(case, request=rq[:300]), f"{len(parts)} states: {line[:120]}", f"{len(states)} states")
+            continue
+        for k, (ln, (post, bounds)) in enumerate(zip(parts, states)):
+            bad = ("model answers reject" if ln == "reject" else None) if post is None else diff_state(ln, post, bounds)
+            if post is None and ln == "reject":
+                bad = None
+            if bad:
+                ctx.disagree("Model/AxialExp.lean runReuse / runFresh vs successive steps on the real objects",
+                             dict(case, step=k, request=rq[:300]), bad, "see message")
+                break
+    ctx.evaluations += sum(len(x[1]) for x in chk)
+    ctx.count("multi-step route requests (one store re-used / fresh store per step)", len(req))
+    ctx.samples.append({"request": req[0][:400], "model": model[0][:300]})
 
 
 def expected_factor(c, t_from, t_to):
@@ -561,7 +821,8 @@ def run_zero_celsius(ctx, collect):
     """closed isothermal cycles through EXACTLY 0.0 C (a legitimate, falsy temperature)"""
     fx = fixtures()
     paths = [[25.0, 0.0, 100.0, 25.0], [0.0, 50.0, 0.0], [25.0, 0.0, 0.0, 300.0, 25.0]]
-    for a0 in fx["assems"]:
+    tops = top_pool(ctx)
+    for a0 in fx["assems"] + (tops if ctx.thorough else ctx.rng.sample(tops, 3)):
         path = ctx.rng.choice(paths) if not ctx.thorough else None
         for pth in ([path] if path else paths):
             a = copy.deepcopy(a0)
@@ -571,7 +832,7 @@ def run_zero_celsius(ctx, collect):
             ref = None
             ok = True
             for k, T in enumerate(pth):
-                case = {"assembly": a0.getType(), "mode": "isothermal-cycle", "path": pth, "leg": k, "T": T}
+                case = {"assembly": label(a0), "mode": "isothermal-cycle", "path": pth, "leg": k, "T": T}
                 r = one_step(ctx, collect, a, a0, chg, snapshot, iterSolid, case, H0, top0, budget, "isothermal", T)
                 if r is None:
                     ok = False
@@ -587,10 +848,10 @@ def run_zero_celsius(ctx, collect):
                                          observed=post[ib]["h"], expected=f"!= {pre[ib]['h']}")
                 if k == 0:
                     ref = post
-                ctx.case(("zero-c", a0.getType(), tuple(pth), k), nontrivial=True)
+                ctx.case(("zero-c", label(a0), tuple(pth), k), nontrivial=True)
             if ok and pth[0] == pth[-1]:
                 end = snapshot(a)
-                case = {"assembly": a0.getType(), "mode": "isothermal-cycle", "path": pth}
+                case = {"assembly": label(a0), "mode": "isothermal-cycle", "path": pth}
                 for ib in range(len(ref) - 1):
                     tt = ref[ib]["targets"]
                     for cs, ce in zip(ref[ib]["comps"], end[ib]["comps"]):
@@ -614,8 +875,9 @@ def run_small_steps(ctx, collect):
     """10-50 VERY small expansions (L1/L0 = 1 +- a few 1e-6, isothermal steps of +0.25 C) on one object:
     every clause after EVERY step, and no accumulated drift"""
     fx = fixtures()
+    tops = top_pool(ctx)
     for _ in range(ctx.pick(8, 40)):
-        a0 = ctx.rng.choice(fx["assems"])
+        a0 = ctx.rng.choice(tops) if ctx.rng.random() < 0.3 else ctx.rng.choice(fx["assems"])
         a = copy.deepcopy(a0)
         chg, snapshot, iterSolid = make_changer()
         H0, top0 = a.getTotalHeight(), float(a[-1].p.ztop)
@@ -626,7 +888,7 @@ def run_small_steps(ctx, collect):
         first = None
         prod = None
         for k in range(nsteps):
-            case = {"assembly": a0.getType(), "mode": "tiny-" + kind, "step": k}
+            case = {"assembly": label(a0), "mode": "tiny-" + kind, "step": k}
             if kind == "isothermal":
                 if k > 0:
                     T += 0.25
@@ -653,7 +915,7 @@ def run_small_steps(ctx, collect):
                 if abs(post[ib]["h"] - pre[ib]["h"]) == 0.0 and t and pre[ib]["comps"][t[0]]["g"] != 1.0 and aligned(pre, ib, t[0]):
                     ctx.fail("tiny-step-moves-boundary", "a very small expansion still moves the block boundary",
                              dict(case, block=ib), observed=post[ib]["h"], expected=pre[ib]["comps"][t[0]]["g"] * pre[ib]["h"])
-            ctx.case(("tiny", a0.getType(), kind, k, _), nontrivial=True)
+            ctx.case(("tiny", label(a0), kind, k, _), nontrivial=True)
         else:
             # accumulated drift: height of every block with an aligned target = initial height x product of its factors
             end = snapshot(a)
@@ -664,12 +926,12 @@ def run_small_steps(ctx, collect):
                     if not relclose(end[ib]["h"], exp, 1e-10):
                         ctx.fail("tiny-steps-accumulated-drift", "after many small steps a block's height is its initial "
                                  "height times the product of its target's factors",
-                                 {"assembly": a0.getType(), "mode": "tiny-" + kind, "steps": nsteps, "block": ib},
+                                 {"assembly": label(a0), "mode": "tiny-" + kind, "steps": nsteps, "block": ib},
                                  observed=end[ib]["h"], expected=float(exp))
             bounds = [float(x) for x in a.spatialGrid._bounds[2]]
             if bounds != [0.0] + [b["zt"] for b in end]:
                 ctx.fail("grid-bounds-are-elevations", "axial grid bounds equal the block elevations", 
-                         {"assembly": a0.getType(), "mode": "tiny-" + kind, "steps": nsteps}, observed=bounds)
+                         {"assembly": label(a0), "mode": "tiny-" + kind, "steps": nsteps}, observed=bounds)
 
 
 # --------------------------------------------------------------------------- assemblies built through the real API
@@ -689,7 +951,7 @@ BUILT_STACKS = [
 ]
 
 
-def build_assembly(kinds, heights):
+def build_assembly(kinds, heights, top="fluid"):
     """HexAssembly / HexBlock / components through the public constructors (nothing from the blueprint fixtures)"""
     from armi.reactor import grids
     from armi.reactor.assemblies import HexAssembly
@@ -741,9 +1003,23 @@ def build_assembly(kinds, heights):
     for k, h in zip(kinds, heights):
         a.add(blk(k, h))
     d = HexBlock("dummy", height=heights[-1])
-    d.add(Hexagon("dummy coolant", "Sodium", op=17.0, ip=0.0, mult=1.0, **T))
+    if top == "fluid":
+        d.add(Hexagon("dummy coolant", "Sodium", op=17.0, ip=0.0, mult=1.0, **T))
+    else:
+        # a top dummy block that carries solids besides its fluid (duct linked to the duct below; socket / ring linked to
+        # nothing; "pins": solid pins linked to solid pins below when the block below has them)
+        if "duct" in top:
+            d.add(Hexagon("duct", "HT9", op=16.0, ip=15.3, mult=1.0, **T))
+        if "socket" in top:
+            d.add(Circle("handling socket", "HT9", od=6.0, id=4.0, mult=1.0, **T))
+        if "ring" in top:
+            d.add(Circle("lifting ring", "HT9", od=10.0, id=8.5, mult=1.0, **T))
+        d.add(DerivedShape("coolant", "Sodium", **T))
+        d.add(Hexagon("intercoolant", "Sodium", op=17.0, ip=16.0, mult=1.0, **T))
     d.getVolumeFractions()
     d.setType("dummy")
+    if top.endswith("-target"):
+        d.p.axialExpTargetComponent = "duct"
     a.add(d)
     a.calculateZCoords()
     a.reestablishBlockOrder()
@@ -761,14 +1037,19 @@ def run_built(ctx, collect):
                        for x, y in zip(st, st[1:])):
                 break
         stacks.append(st)
-    for kinds in stacks:
+    tv = ("fluid",) + TOP_VARIANTS
+    off = ctx.rng.randrange(len(tv))
+    for ist, kinds in enumerate(stacks):
         heights = [ctx.rng.choice([8.0, 16.0, 20.5, 32.0]) for _ in kinds] + [16.0]
+        top = tv[(ist + off) % len(tv)]      # every variant of the top block's contents on every run
         try:
             with common.quiet():
-                a = build_assembly(kinds, heights)
+                a = build_assembly(kinds, heights, top)
         except Exception as e:  # noqa
             raise common.Infra(f"cannot build the test assembly {kinds}: {e!r}")
         a0 = a
+        TOP_TAG[id(a0)] = top
+        ctx.count("built assembly with top block contents: " + top)
         chg, snapshot, iterSolid = make_changer()
         H0, top0 = a.getTotalHeight(), float(a[-1].p.ztop)
         budget = [1, 0]
@@ -776,7 +1057,7 @@ def run_built(ctx, collect):
                                     for _ in range(ctx.rng.randint(1, 3))]
         T = 400.0
         for k, mode in enumerate(steps):
-            case = {"assembly": "built:" + "/".join(kinds), "heights": heights, "mode": "built-" + mode, "step": k}
+            case = {"assembly": "built:" + "/".join(kinds), "top_block": top, "heights": heights, "mode": "built-" + mode, "step": k}
             solids = [(ib, c) for ib, b in enumerate(a[:-1]) for c in iterSolid(b)]
             comps = [c for _, c in solids]
             if mode == "isothermal":
@@ -803,7 +1084,7 @@ def run_built(ctx, collect):
                         if not fclose(cp["mass"], cq["mass"], 1e-9):
                             ctx.fail("uniform-growth-mass-conserved", "all solids of a block growing alike keep their mass",
                                      dict(case, block=ib, comp=cp["name"]), observed=cq["mass"], expected=cp["mass"])
-            ctx.case(("built", tuple(kinds), tuple(heights), k, mode), nontrivial=True)
+            ctx.case(("built", tuple(kinds), top, tuple(heights), k, mode), nontrivial=True)
         ctx.count("built assemblies (subclassed / base-class shape stacks)")
 
 
@@ -815,6 +1096,10 @@ def run_state_carry(ctx, collect):
     pool = [x for x in fx["assems"] if "control" not in x.getType()]
     with common.quiet():
         pool += [build_assembly(k, [16.0] * (len(k) + 1)) for k in (["fuel", "holedslab", "slab"], ["customfuel", "fuel", "pinslab61"])]
+        for k, tp in ((["fuel", "holedslab", "slab"], "duct+socket"), (["customfuel", "fuel", "pinslab61"], "duct")):
+            pool.append(build_assembly(k, [16.0] * (len(k) + 1), tp))
+            TOP_TAG[id(pool[-1])] = tp
+    pool += [x for x in top_pool(ctx) if "control" not in x.getType()]
     for _ in range(ctx.pick(10, 120)):
         a0 = ctx.rng.choice(pool)
         a, a2 = copy.deepcopy(a0), copy.deepcopy(a0)
@@ -833,7 +1118,7 @@ def run_state_carry(ctx, collect):
             idx = [(ib, ic, c) for ib, b in enumerate(a[:-1]) for ic, c in enumerate(solids(b)) if c.name in grp]
             comps = [c for _, _, c in idx]
             listed = {(ib, ic) for ib, ic, _ in idx}
-            case = {"assembly": a0.getType(), "mode": "reused-changer-subsets", "step": k, "listed": sorted(grp), "factor": p}
+            case = {"assembly": label(a0), "mode": "reused-changer-subsets", "step": k, "listed": sorted(grp), "factor": p}
             r = one_step(ctx, collect, a, a0, chg, snapshot, iterSolid, case, H0, top0, budget, "prescribed",
                          (comps, [p] * len(comps)))
             if r is None:
@@ -864,11 +1149,11 @@ def run_state_carry(ctx, collect):
                 if not same:
                     ctx.fail("reused-changer-equals-fresh-changer", "a changer that was used before gives the same result as a "
                              "fresh one", dict(case, block=ib), observed=[x["h"], x["zt"]], expected=[y["h"], y["zt"]])
-            ctx.case(("carry", a0.getType(), k, tuple(sorted(grp)), p), nontrivial=True)
+            ctx.case(("carry", label(a0), k, tuple(sorted(grp)), p), nontrivial=True)
         if ok:
             end = snapshot(a)
             al = chg.pre
-            case = {"assembly": a0.getType(), "mode": "reused-changer-subsets", "sequence": [[sorted(g), p] for g, p in seq]}
+            case = {"assembly": label(a0), "mode": "reused-changer-subsets", "sequence": [[sorted(g), p] for g, p in seq]}
             for ib in range(len(start) - 1):
                 for cs, ce in zip(start[ib]["comps"], end[ib]["comps"]):
                     if not fclose(cs["nd"], ce["nd"], 1e-11):
@@ -887,6 +1172,506 @@ def run_state_carry(ctx, collect):
         ctx.count("reused-changer subset sequences")
 
 
+def same_state(x, y, tol=1e-13):
+    return (fclose(x["h"], y["h"], tol) and fclose(x["zt"], y["zt"], tol) and x["zb"] == y["zb"] or
+            (abs(x["zb"] - y["zb"]) <= tol * max(abs(x["zb"]), 1.0) and fclose(x["h"], y["h"], tol) and fclose(x["zt"], y["zt"], tol))) \
+        and len(x["comps"]) == len(y["comps"]) and all(
+            fclose(cx["nd"], cy["nd"], tol) and fclose(cx["mass"], cy["mass"], 1e-12) for cx, cy in zip(x["comps"], y["comps"]))
+
+
+REUSE_PATTERNS = ("grow-hold-shrink", "grow-hold-hold-grow", "one-group-per-step", "subsets", "subsets-of-blocks")
+
+
+def reuse_steps(ctx, sol, pattern):
+    """step sequences for ONE ExpansionData used for successive steps. A step is a dict {(block, solid index): L1/L0}
+    of the components it LISTS. Every component a step does not list either was never listed before or was last
+    prescribed EXACTLY 1.0 (so that what is prescribed for it is unambiguous: no change). Returns (steps, uniform?)
+    where uniform? says that all solids of a block get the same factor in every step."""
+    rng = ctx.rng
+    blocks = sorted({ib for ib, _ic, _c in sol})
+    allk = [(ib, ic) for ib, ic, _c in sol]
+    dy = lambda lo, hi: 1.0 + rng.choice([k for k in range(lo, hi + 1) if k != 0]) / 256.0     # noqa: E731
+    if pattern == "grow-hold-shrink":
+        g = {ib: dy(-8, 12) for ib in blocks}
+        holds = rng.randint(1, 2)
+        steps = [{k: g[k[0]] for k in allk}] + [{k: 1.0 for k in allk} for _ in range(holds)] + [{k: 1.0 / g[k[0]] for k in allk}]
+        return steps, True
+    if pattern == "grow-hold-hold-grow":
+        g, h = {ib: dy(-8, 10) for ib in blocks}, {ib: dy(-8, 10) for ib in blocks}
+        return [{k: g[k[0]] for k in allk}, {k: 1.0 for k in allk}, {k: 1.0 for k in allk}, {k: h[k[0]] for k in allk}], True
+    names = sorted({c.name for _ib, _ic, c in sol})
+    if pattern == "one-group-per-step":
+        # full vectors; a different group of components (by name) moves in every step, every other one is prescribed 1.0
+        rng.shuffle(names)
+        groups = [set(names[i::3]) for i in range(3) if names[i::3]]
+        fs = [dy(-6, 6) for _ in groups]
+        fwd = [{(ib, ic): (f if c.name in grp else 1.0) for ib, ic, c in sol} for grp, f in zip(groups, fs)]
+        back = [{(ib, ic): (1.0 / f if c.name in grp else 1.0) for ib, ic, c in sol} for grp, f in reversed(list(zip(groups, fs)))]
+        return fwd + back, False
+    # subsets: a step lists only some components; before a component is dropped from the lists it is prescribed exactly 1.0
+    def pick():
+        if pattern == "subsets":
+            chosen = set(rng.sample(names, rng.randint(1, max(1, len(names) - 1))))
+            return {(ib, ic) for ib, ic, c in sol if c.name in chosen}
+        chosen = set(rng.sample(blocks, rng.randint(1, max(1, len(blocks) - 1))))
+        return {(ib, ic) for ib, ic, _c in sol if ib in chosen}
+
+    steps, undo = [], []
+    live = {}
+    for _ in range(rng.randint(2, 3)):
+        sub = pick()
+        f = dy(-5, 5)
+        st = {k: f for k in sub}
+        for k, v in live.items():            # components that moved in the step before and are not listed now: exactly 1.0
+            if k not in st and v != 1.0:
+                st[k] = 1.0
+        steps.append(st)
+        undo.append({k: 1.0 / f for k in sub})
+        live = dict(st)
+        if rng.random() < 0.5:               # an explicit hold of just those components
+            steps.append({k: 1.0 for k in sub})
+            live = dict(steps[-1])
+    for u in reversed(undo):
+        st = dict(u)
+        for k, v in live.items():
+            if k not in st and v != 1.0:
+                st[k] = 1.0
+        steps.append(st)
+        live = dict(st)
+    return steps, pattern == "subsets-of-blocks"
+
+
+def run_reuse(ctx, collect):
+    """ONE AxialExpansionChanger / ExpansionData for SUCCESSIVE steps: setAssembly once, then per step
+    expansionData.setExpansionFactors(listed components, factors) + axiallyExpandAssembly() (the pattern of armi's own
+    conservation tests and of plugins). Sequences prescribe exactly 1.0 for components that had another factor in an
+    earlier step (grow / hold / shrink back; g, 1, 1, h; one group of components per step; subsets of components or of
+    blocks per step). Every step: the factor in force for a component is what THIS step prescribes (1.0 = no change), the
+    boundaries move by exactly these factors, a hold changes nothing; the end of a closed sequence restores heights,
+    densities and masses; and a fresh changer / ExpansionData per step on a twin assembly gives the same states."""
+    fx = fixtures()
+    with common.quiet():
+        built = [build_assembly(k, [16.0] * (len(k) + 1), tp) for k, tp in
+                 ((["fuel", "holedslab", "slab"], "fluid"), (["customfuel", "fuel", "pinslab61"], "duct+socket"),
+                  (["slab", "fuel", "fuel", "holedslab"], "duct"))]
+    for b_, tp in zip(built, ("fluid", "duct+socket", "duct")):
+        TOP_TAG[id(b_)] = tp
+    everything = list(fx["assems"]) + top_pool(ctx) + built
+    nocontrol = [x for x in everything if "control" not in x.getType()]
+    req, chk = collect
+    for it in range(ctx.pick(30, 300)):
+        pattern = REUSE_PATTERNS[it % len(REUSE_PATTERNS)]
+        # (per-component growth drives the 1 cm blocks of the control assemblies negative: known finding, exercised elsewhere)
+        a0 = ctx.rng.choice(everything if pattern.startswith("grow") else nocontrol)
+        a, twin = copy.deepcopy(a0), copy.deepcopy(a0)
+        chg, snapshot, iterSolid = make_changer()
+        H0, top0 = a.getTotalHeight(), float(a[-1].p.ztop)
+        budget = [0, 0]
+        try:
+            with common.quiet():
+                chg.setAssembly(a, True)            # ONCE
+        except Exception as e:  # noqa
+            ctx.fail("expansion-raises", "a physical expansion of an assembly with a dummy block succeeds",
+                     {"assembly": label(a0), "mode": "reused-expansion-data"}, observed=repr(e)[:300])
+            continue
+        ed = chg.expansionData
+        sol = [(ib, ic, c) for ib, b in enumerate(a[:-1]) for ic, c in enumerate(iterSolid(b))]
+        comp_at = {(ib, ic): c for ib, ic, c in sol}
+        steps, uniform = reuse_steps(ctx, sol, pattern)
+        start = snapshot(a)
+        ok = True
+        pre0, sent, states, tstates = None, [], [], []
+        for k, st in enumerate(steps):
+            keys = sorted(st)
+            ctx.rng.shuffle(keys)
+            fr = [st[kk] for kk in keys]
+            case = {"assembly": label(a0), "mode": "reused-expansion-data", "pattern": pattern, "step": k, "of": len(steps),
+                    "listed": len(keys), "factors": sorted(set(fr))[:6]}
+            chg.pre = None
+            try:
+                with common.quiet():
+                    ed.setExpansionFactors([comp_at[kk] for kk in keys], fr)
+                    chg.axiallyExpandAssembly()
+            except Exception as e:  # noqa
+                ctx.fail("expansion-raises", "a physical expansion of an assembly with a dummy block succeeds", case,
+                         observed=repr(e)[:300])
+                ok = False
+                break
+            pre, post = chg.pre, snapshot(a)
+            if pre0 is None:
+                pre0 = pre
+            sent.append((keys, fr))
+            states.append((post, [float(x) for x in a.spatialGrid._bounds[2]]))
+            oracle_step(ctx, case, a, pre, post, masses(pre), H0, top0, "uniform" if uniform else "percomp", budget)
+            hold = all(v == 1.0 for v in st.values())
+            for ib in range(len(pre) - 1):
+                for ic, c in enumerate(pre[ib]["comps"]):
+                    want = st.get((ib, ic), 1.0)
+                    if c["g"] != want:
+                        ctx.fail("step-factor-is-this-steps-prescription", "in every step of a re-used ExpansionData the factor in "
+                                 "force for a component is the one prescribed in THIS step (exactly 1.0 included; 1.0 for a "
+                                 "component that was never listed or was last prescribed 1.0)",
+                                 dict(case, block=ib, comp=c["name"]), observed=c["g"], expected=want)
+                t = pre[ib]["targets"]
+                chain = all(pre[jb]["targets"] and aligned(pre, jb, pre[jb]["targets"][0]) for jb in range(ib + 1))
+                if t and chain:
+                    want = st.get((ib, t[0]), 1.0)
+                    exp_h = want * pre[ib]["h"]
+                    if not fclose(post[ib]["h"], exp_h, 1e-12):
+                        ctx.fail("step-moves-boundaries-by-this-steps-factors", "a block whose target sits on the block below "
+                                 "grows by exactly the factor prescribed for its target in this step (1.0: not at all)",
+                                 dict(case, block=ib), observed=post[ib]["h"], expected=exp_h)
+                if hold:
+                    same = fclose(post[ib]["h"], pre[ib]["h"], 1e-13) and fclose(post[ib]["zt"], pre[ib]["zt"], 1e-13) and all(
+                        fclose(cq["nd"], cp["nd"], 1e-15) and fclose(cq["mass"], cp["mass"], 1e-12)
+                        for cp, cq in zip(pre[ib]["comps"], post[ib]["comps"]))
+                    if not same:
+                        ctx.fail("hold-step-changes-nothing", "a step that prescribes exactly 1.0 for everything that moved before "
+                                 "leaves heights, elevations, densities and masses as they are", dict(case, block=ib),
+                                 observed=[post[ib]["h"], post[ib]["zt"]], expected=[pre[ib]["h"], pre[ib]["zt"]])
+            # the same step through a FRESH changer / ExpansionData on the twin
+            fresh, _s, _i = make_changer()
+            try:
+                with common.quiet():
+                    fresh.setAssembly(twin, True)
+                    tw_at = {(ib, ic): c for ib, b in enumerate(twin[:-1]) for ic, c in enumerate(iterSolid(b))}
+                    fresh.expansionData.setExpansionFactors([tw_at[kk] for kk in keys], fr)
+                    fresh.axiallyExpandAssembly()
+            except Exception as e:  # noqa
+                ctx.fail("expansion-raises", "a physical expansion of an assembly with a dummy block succeeds", case, observed=repr(e)[:200])
+                ok = False
+                break
+            tw = snapshot(twin)
+            tstates.append((tw, [float(x) for x in twin.spatialGrid._bounds[2]]))
+            for ib, (x, y) in enumerate(zip(post, tw)):
+                if not same_state(x, y):
+                    ctx.fail("reused-expansion-data-equals-fresh-per-step", "one ExpansionData used for successive steps and a "
+                             "fresh one per step give the same states", dict(case, block=ib),
+                             observed=[x["h"], x["zt"]], expected=[y["h"], y["zt"]])
+            safe_request(ctx, case, pre, req, chk, (case, pre, post, [float(x) for x in a.spatialGrid._bounds[2]]))
+            ctx.count(f"reused ExpansionData: pattern {pattern}")
+            ctx.count("reused ExpansionData: " + ("hold step (all listed exactly 1.0)" if hold else "moving step"))
+            ctx.case(("reuse", label(a0), pattern, it, k), nontrivial=True)
+        if pre0 is not None and len(tstates) == len(states):
+            # the whole history through the model's state machine, both routes (function runReuse / runFresh)
+            try:
+                rcase = {"assembly": label(a0), "mode": "reused-expansion-data", "pattern": pattern, "steps": len(states)}
+                ROUTES[0].append(route_request("reuse", pre0, sent))
+                ROUTES[1].append((dict(rcase, route="one ExpansionData for all steps"), states))
+                ROUTES[0].append(route_request("fresh", pre0, sent))
+                ROUTES[1].append((dict(rcase, route="fresh ExpansionData per step"), tstates))
+            except Exception as e:  # noqa
+                ctx.fail("expansion-state-not-evaluable", "the state before an expansion consists of finite numbers",
+                         {"assembly": label(a0)}, observed=repr(e)[:200])
+        if not ok:
+            continue
+        end = snapshot(a)
+        al = chg.pre
+        case = {"assembly": label(a0), "mode": "reused-expansion-data", "pattern": pattern, "steps": len(steps)}
+        if pattern == "grow-hold-hold-grow":
+            # net factor g*h per block: heights and densities of every block (uniform growth keeps everything flat)
+            for ib in range(len(start) - 1):
+                f = steps[0][(ib, 0)] * steps[-1][(ib, 0)] if (ib, 0) in steps[0] else 1.0
+                if not fclose(end[ib]["h"], f * start[ib]["h"], 1e-11):
+                    ctx.fail("sequence-net-growth", "g, 1.0, 1.0, h leaves every block at g*h times its height", dict(case, block=ib),
+                             observed=end[ib]["h"], expected=f * start[ib]["h"])
+                for cs, ce in zip(start[ib]["comps"], end[ib]["comps"]):
+                    if not fclose(ce["nd"] * f, cs["nd"], 1e-11) or not fclose(cs["mass"], ce["mass"], 1e-10):
+                        ctx.fail("sequence-net-growth", "... densities divided by g*h, masses unchanged",
+                                 dict(case, block=ib, comp=cs["name"]), observed=[ce["nd"], ce["mass"]], expected=[cs["nd"] / f, cs["mass"]])
+            continue
+        for ib in range(len(start) - 1):
+            for cs, ce in zip(start[ib]["comps"], end[ib]["comps"]):
+                if not fclose(cs["nd"], ce["nd"], 1e-11):
+                    ctx.fail("sequence-inverse-restores-densities", "a sequence followed by its exact inverse restores the "
+                             "number densities", dict(case, block=ib, comp=cs["name"]), observed=ce["nd"], expected=cs["nd"])
+            t = al[ib]["targets"]
+            chain = all(al[jb]["targets"] and aligned(al, jb, al[jb]["targets"][0]) for jb in range(ib + 1))
+            if uniform or (t and chain):
+                if not fclose(start[ib]["h"], end[ib]["h"], 1e-10) or not fclose(start[ib]["zt"], end[ib]["zt"], 1e-10):
+                    ctx.fail("sequence-inverse-restores-heights", "a sequence followed by its exact inverse restores the "
+                             "heights (blocks whose targets sit on the block below)", dict(case, block=ib),
+                             observed=[end[ib]["h"], end[ib]["zt"]], expected=[start[ib]["h"], start[ib]["zt"]])
+                for ic, (cs, ce) in enumerate(zip(start[ib]["comps"], end[ib]["comps"])):
+                    if (uniform or [ic] == t) and not fclose(cs["mass"], ce["mass"], 1e-10):
+                        ctx.fail("sequence-inverse-restores-masses", "... and the masses (all solids under uniform growth, the "
+                                 "target otherwise)", dict(case, block=ib, comp=cs["name"]), observed=ce["mass"], expected=cs["mass"])
+        all_chain = all(al[jb]["targets"] and aligned(al, jb, al[jb]["targets"][0]) for jb in range(len(al) - 1))
+        if (uniform or all_chain) and not fclose(end[-1]["h"], start[-1]["h"], 1e-10):
+            ctx.fail("sequence-inverse-restores-heights", "... and the height of the top block", dict(case, block=len(start) - 1),
+                     observed=end[-1]["h"], expected=start[-1]["h"])
+
+
+def run_store(ctx):
+    """function-level tie of ExpansionData.setExpansionFactors / getExpansionFactor: call sequences on ONE real
+    ExpansionData (listed subsets with repeated components, exactly 1.0 after another value, refused calls: a zero or
+    negative factor anywhere in the list, lists of different lengths) against Model/AxialExp.lean setExpansionFactors /
+    getFactor; after every call the factor of every component is read back"""
+    from armi.reactor.converters.axialExpansionChanger.expansionData import ExpansionData
+
+    fx = fixtures()
+    req, chk = LINK
+    for _ in range(ctx.pick(40, 400)):
+        a = copy.deepcopy(ctx.rng.choice(fx["assems"] + top_pool(ctx)[:3]))
+        with common.quiet():
+            ed = ExpansionData(a, True, False)
+        comps = [c for b in a for c in solids(b)]
+        ctx.rng.shuffle(comps)
+        comps = comps[:ctx.rng.randint(2, 8)]
+        n = len(comps)
+        calls, out, hist = [], [], []
+        for _k in range(ctx.rng.randint(2, 8)):
+            u = ctx.rng.random()
+            m = ctx.rng.randint(0, n + 2)
+            ks = [ctx.rng.randrange(n) for _ in range(m)]
+            fr = [ctx.rng.choice([1.0, 1.0, 1.0 + ctx.rng.randint(-40, 60) / 256.0, ctx.rng.randint(1, 512) / 256.0]) for _ in ks]
+            kind = "valid"
+            if u < 0.12 and fr:
+                fr[ctx.rng.randrange(len(fr))] = 0.0
+                kind = "zero factor"
+            elif u < 0.24 and fr:
+                fr[ctx.rng.randrange(len(fr))] = -ctx.rng.randint(1, 300) / 256.0
+                kind = "negative factor"
+            elif u < 0.34:
+                if ctx.rng.random() < 0.5 and fr:
+                    fr = fr[:-1]
+                else:
+                    fr = fr + [1.0 + ctx.rng.randint(-3, 3) / 256.0]
+                kind = "different lengths"
+            case = {"what": "setExpansionFactors / getExpansionFactor", "calls_before": list(hist), "kind": kind, "listed": ks, "factors": fr}
+            try:
+                with common.quiet():
+                    ed.setExpansionFactors([comps[i] for i in ks], fr)
+                flag = "K"
+            except RuntimeError:
+                flag = "R"
+            except Exception as e:  # noqa
+                ctx.fail("set-expansion-factors-unexpected-exception", "setExpansionFactors stores the factors or refuses with "
+                         "RuntimeError", case, observed=repr(e)[:200])
+                break
+            if (flag == "R") != (kind != "valid"):
+                ctx.fail("set-expansion-factors-validation", "setExpansionFactors refuses exactly the calls with a non-positive "
+                         "factor or lists of different lengths", case, observed=flag)
+            got = [float(ed.getExpansionFactor(c)) for c in comps]
+            calls.append("[[" + ",".join(f"[0,{i}]" for i in ks) + "]," + ratlist(fr) + "]")
+            out.append(flag + ratlist(got))
+            hist.append(kind)
+            ctx.count("setExpansionFactors call: " + kind)
+        else:
+            req.append(f"store {n} [" + ",".join(calls) + "]")
+            chk.append(({"what": "setExpansionFactors / getExpansionFactor call sequence", "kinds": hist}, ";".join(out)))
+            ctx.case(("store", tuple(calls)), nontrivial=True)
+
+
+def run_blocktemps(ctx):
+    """function-level tie of ExpansionData.updateComponentTempsBy1DTempField (which grid points count for a block, the
+    early stop, the mean, the refusals) against Model/AxialExp.lean blockTemps: real assemblies, temperature grids that
+    are fine / coarse / hit block boundaries exactly / stop short of the top / of different length than the field"""
+    from armi.reactor.converters.axialExpansionChanger.expansionData import ExpansionData
+
+    fx = fixtures()
+    req, chk = LINK
+    for _ in range(ctx.pick(40, 400)):
+        a = copy.deepcopy(ctx.rng.choice(fx["assems"] + top_pool(ctx)[:2]))
+        with common.quiet():
+            ed = ExpansionData(a, True, False)
+        zbs, zts = [float(b.p.zbottom) for b in a], [float(b.p.ztop) for b in a]
+        H = zts[-1]
+        kind = ctx.rng.choice(["fine", "boundaries", "boundaries+mid", "coarse", "short", "lengths", "jittered"])
+        if kind == "fine":
+            grid = [H * i / 64.0 for i in range(65)]
+        elif kind == "boundaries":
+            grid = [0.0] + zts
+        elif kind == "boundaries+mid":
+            grid = sorted(set([0.0] + zts + [(x + y) / 2.0 for x, y in zip(zbs, zts)]))
+        elif kind == "coarse":
+            grid = [H * i / 4.0 for i in range(5)]
+        elif kind == "short":
+            grid = [H * i / 64.0 for i in range(ctx.rng.randint(20, 60))]
+        elif kind == "jittered":
+            grid = sorted(H * ctx.rng.randint(0, 1024) / 1024.0 for _ in range(ctx.rng.randint(8, 40)))
+        else:
+            grid = [H * i / 32.0 for i in range(33)]
+        field = [float(ctx.rng.randint(300, 700)) + ctx.rng.randint(0, 3) / 4.0 for _ in grid]
+        if kind == "lengths":
+            field = field[:-1] if ctx.rng.random() < 0.5 else field + [500.0]
+        case = {"what": "updateComponentTempsBy1DTempField", "assembly": a.getType(), "grid": kind, "points": len(grid)}
+        try:
+            with common.quiet():
+                ed.updateComponentTempsBy1DTempField(list(grid), list(field))
+            temps = []
+            for b in a:
+                ts = {float(c.temperatureInC) for c in b}
+                if len(ts) != 1:
+                    ctx.fail("thermal-temperature-applied", "components take the block-average temperature", case, observed=sorted(ts)[:4])
+                temps.append(sorted(ts)[0])
+            # the property's clause, directly: the mean of the field values whose grid point lies within the block
+            for b, zb, zt, t in zip(a, zbs, zts, temps):
+                pts = [f for z, f in zip(grid, field) if zb <= z <= zt]
+                if not pts or not fclose(t, sum(pts) / len(pts), 1e-12):
+                    ctx.fail("block-temperature-is-mean-of-points-within", "a block's temperature is the mean of the field values "
+                             "at the grid points within the block", dict(case, block=b.getType()), observed=t,
+                             expected=(sum(pts) / len(pts)) if pts else None)
+            out = None
+        except (ValueError, RuntimeError):
+            out = "reject"
+        if out is None:
+            exp = temps
+        req.append(f"blocktemps {ratlist(zbs)} {ratlist(zts)} {ratlist(grid)} {ratlist(field)}")
+        chk.append((case, out if out else ("~", exp)))
+        ctx.count("block temperature field: " + kind + (" (refused)" if out else ""))
+        ctx.case(("blocktemps", a.getType(), kind, tuple(grid[:5]), tuple(field[:5])), nontrivial=True)
+
+
+def material_factor(c, t_from, t_to):
+    """(100 + p(T1)) / (100 + p(T0)) from the material's expansion curve; t_from None = the input temperature"""
+    return expected_factor(c, float(c.inputTemperatureInC) if t_from is None else t_from, t_to)
+
+
+def run_thermal_dispatch(ctx):
+    """function-level tie of the thermal part of ExpansionData: random sequences of updateComponentTemp (single
+    components, temperatures including exactly 0.0 and the current one), updateComponentTempsBy1DTempField (resets the
+    references, block averages, refusals) and computeThermalExpansionFactors, with expandFromTinputToThot on and off.
+    The model (factorSpec) says WHICH expansion the material is asked for (none / input -> T / T0 -> T); the harness
+    evaluates that on the material's own curve and compares with the factor the real object stored."""
+    from armi.reactor.converters.axialExpansionChanger.expansionData import ExpansionData
+
+    fx = fixtures()
+    temps_pool = [0.0, 0.0, 25.0, 250.0, 300.0, 400.5, 525.0]
+    reqs, chks = [], []
+    for _ in range(ctx.pick(30, 300)):
+        a = copy.deepcopy(ctx.rng.choice(fx["assems"] + top_pool(ctx)[:3]))
+        from_input = ctx.rng.random() < 0.3
+        with common.quiet():
+            ed = ExpansionData(a, True, from_input)
+        keys = [(ib, ic, c) for ib, b in enumerate(a) for ic, c in enumerate(solids(b))]
+        zbs, zts = [float(b.p.zbottom) for b in a], [float(b.p.ztop) for b in a]
+        H = zts[-1]
+        t0 = [float(c.temperatureInC) for _ib, _ic, c in keys]
+        ops, reads, kinds = [], [], []
+        refused = False
+        for _k in range(ctx.rng.randint(3, 10)):
+            u = ctx.rng.random()
+            if u < 0.5:
+                ib, ic, c = ctx.rng.choice(keys)
+                T = ctx.rng.choice(temps_pool + [float(c.temperatureInC)])
+                with common.quiet():
+                    ed.updateComponentTemp(c, T)
+                ops.append(f"[0,{ib},{ic},{rat(T)}]")
+                kinds.append("updateComponentTemp")
+            elif u < 0.68:
+                n = ctx.rng.choice([9, 65, 129])
+                grid = [H * i / (n - 1) for i in range(n)]
+                base, slope = ctx.rng.choice(temps_pool), ctx.rng.choice([0.0, 0.0, 0.5])
+                field = [base + slope * ctx.rng.randint(0, 200) for _z in grid]
+                ops.append(f"[2,{ratlist(grid)},{ratlist(field)}]")
+                kinds.append("updateComponentTempsBy1DTempField")
+                try:
+                    with common.quiet():
+                        ed.updateComponentTempsBy1DTempField(grid, field)
+                except ValueError:
+                    refused = True
+                    kinds[-1] += " (refused)"
+                    break
+            else:
+                with common.quiet():
+                    ed.computeThermalExpansionFactors()
+                ops.append("[1]")
+                kinds.append("computeThermalExpansionFactors")
+                reads.append([float(ed.getExpansionFactor(c)) for _ib, _ic, c in keys])
+        for kd in kinds:
+            ctx.count("thermal dispatch op: " + kd)
+        reqs.append(f"thermal {'T' if from_input else 'F'} {ratlist(zbs)} {ratlist(zts)} "
+                    f"[{','.join(f'[{ib},{ic}]' for ib, ic, _c in keys)}] {ratlist(t0)} [{','.join(ops)}]")
+        chks.append(({"what": "thermal factor dispatch", "assembly": a.getType(), "expandFromTinputToThot": from_input, "ops": kinds},
+                     keys, reads, refused))
+        ctx.case(("thermal-dispatch", a.getType(), from_input, tuple(kinds), tuple(ops[:3])), nontrivial=True)
+    model = lean_run("AxialExp", reqs)
+    for (case, keys, reads, refused), line, rq in zip(chks, model, reqs):
+        parts = [x for x in line.split(";") if x] if line else []
+        if refused:
+            if not parts or parts[-1] != "reject":
+                ctx.disagree("Model/AxialExp.lean updateByField vs updateComponentTempsBy1DTempField (refusal)", dict(case, request=rq[:300]),
+                             line[-120:], "raises ValueError")
+                continue
+            parts = parts[:-1]
+        if len(parts) != len(reads) or "bad-op" in parts or "reject" in parts:
+            ctx.disagree("Model/AxialExp.lean thermal ops vs ExpansionData", dict(case, request=rq[:300]), line[:200], f"{len(reads)} reads")
+            continue
+        for specs, got in zip(parts, reads):
+            sp = specs[1:-1].split(",") if len(specs) > 2 else []
+            bad = None
+            if len(sp) != len(got):
+                bad = "number of components"
+            else:
+                for (ib, ic, c), spec, g in zip(keys, sp, got):
+                    try:
+                        if spec == "1":
+                            exp = 1.0
+                        elif spec.startswith("in:"):
+                            exp = material_factor(c, None, float(Fraction(spec[3:])))
+                        else:
+                            x0, x1 = spec.split(":")
+                            exp = material_factor(c, float(Fraction(x0)), float(Fraction(x1)))
+                    except Exception as e:  # noqa
+                        bad = f"spec {spec}: {e!r}"
+                        break
+                    if not fclose(g, exp, 1e-12):
+                        bad = f"block {ib} {c.name}: stored factor {g}, the model asks the material for {spec} = {exp}"
+                        break
+            if bad:
+                ctx.disagree("Model/AxialExp.lean factorSpec vs _perComponentThermalExpansionFactors", dict(case, request=rq[:300]),
+                             bad, "see message")
+                break
+    ctx.evaluations += len(reqs)
+    ctx.count("thermal dispatch model requests", len(reqs))
+    if reqs:
+        ctx.samples.append({"request": reqs[0][:300], "model": model[0][:200]})
+
+
+def run_core_mesh(ctx):
+    """WITHOUT detailed axial expansion: assemblies of a whole core (the reference assembly among them) are expanded,
+    then AxialExpansionChanger.manageCoreMesh(r) brings the core onto the reference assembly's mesh
+    (Assembly.setBlockMesh, conserveMassFlag="auto"; Core.updateAxialMesh). The clauses about heights on every assembly
+    of the core afterwards, and the core's axial mesh = the elevations of its reference assembly."""
+    import os
+    from armi.reactor.converters.axialExpansionChanger import AxialExpansionChanger
+    from armi.reactor.tests.test_reactors import loadTestReactor
+    from armi.tests import TEST_ROOT
+
+    for it in range(ctx.pick(2, 10)):
+        with common.scratch_dir(), common.quiet():
+            _o, r = loadTestReactor(os.path.join(TEST_ROOT, "detailedAxialExpansion"))
+        ref = r.core.refAssem
+        H = {a.getName(): a.getTotalHeight() for a in r.core}
+        others = [a for a in r.core if a is not ref]
+        moved = [ref] + ctx.rng.sample(others, 3)
+        if ctx.rng.random() < 0.5:      # a solid-carrying top block on some of them
+            for a in ctx.rng.sample(list(r.core), 4):
+                add_top_solids(a, ctx.rng.choice(TOP_VARIANTS[:4]))
+        chg = AxialExpansionChanger(detailedAxialExpansion=False)
+        case = {"mode": "manageCoreMesh after expanding the reference assembly and three others", "it": it}
+        try:
+            with common.quiet():
+                for a in moved:
+                    per = {id(b): 1.0 + ctx.rng.randint(-6, 8) / 256.0 for b in a}
+                    comps = [c for b in a[:-1] for c in solids(b)]
+                    chg.performPrescribedAxialExpansion(a, comps, [per[id(c.parent)] for c in comps], setFuel=True)
+                chg.manageCoreMesh(r)
+        except Exception as e:  # noqa
+            ctx.fail("expansion-raises", "a physical expansion of an assembly with a dummy block succeeds", case, observed=repr(e)[:300])
+            continue
+        for a in r.core:
+            height_clauses(ctx, dict(case, assembly=a.getType()), a, H[a.getName()])
+        core_mesh = [float(z) for z in r.core.p.axialMesh]
+        ref_mesh = [0.0] + [float(b.p.ztop) for b in ref]
+        if len(core_mesh) != len(ref_mesh) or not all(fclose(x, y, 1e-12) for x, y in zip(core_mesh, ref_mesh)):
+            ctx.fail("core-mesh-is-reference-elevations", "the core's axial mesh equals the elevations of its reference assembly",
+                     case, observed=core_mesh, expected=ref_mesh)
+        ctx.count("manageCoreMesh on a whole core (no detailed axial expansion)")
+        ctx.case(("core-mesh", it, tuple(round(z, 9) for z in ref_mesh)), nontrivial=True)
+
+
 def run_thermal_patterns(ctx, collect):
     """call patterns of the thermal path through the public pieces (setAssembly, updateComponentTemp(sBy1DTempField),
     computeThermalExpansionFactors, axiallyExpandAssembly): factors computed once, twice, or after every block's
@@ -896,6 +1681,7 @@ def run_thermal_patterns(ctx, collect):
     pool = [x for x in fx["assems"]]
     with common.quiet():
         pool += [build_assembly(k, [16.0] * (len(k) + 1)) for k in (["fuel", "holedslab", "slab"], ["customfuel", "fuel", "slab"])]
+    pool += top_pool(ctx)
     req, chk = collect
     for _ in range(ctx.pick(12, 150)):
         a0 = ctx.rng.choice(pool)
@@ -910,7 +1696,7 @@ def run_thermal_patterns(ctx, collect):
         ref, _s, _i = make_changer()
         budget = [0, 0]
         for leg, T in legs:
-            case = {"assembly": a0.getType(), "mode": "thermal-call-pattern", "pattern": pattern, "leg": leg, "T": T}
+            case = {"assembly": label(a0), "mode": "thermal-call-pattern", "pattern": pattern, "leg": leg, "T": T}
             grid = np.linspace(0.0, H0, 3000)
             temps_before = {id(c): float(c.temperatureInC) for b in a for c in b}
             chg.pre = None
@@ -956,10 +1742,10 @@ def run_thermal_patterns(ctx, collect):
                              expected=[y["h"], y["zt"]])
             safe_request(ctx, case, pre, req, chk, (case, pre, post, [float(x) for x in a.spatialGrid._bounds[2]]))
             ctx.count(f"thermal call pattern {pattern}")
-            ctx.case(("thermal-pattern", a0.getType(), pattern, leg, T, _), nontrivial=True)
+            ctx.case(("thermal-pattern", label(a0), pattern, leg, T, _), nontrivial=True)
         else:
             # back to the first temperature with the same pattern-free single call: densities (and aligned heights) return
-            case = {"assembly": a0.getType(), "mode": "thermal-call-pattern", "pattern": pattern, "leg": "back", "T": temps[0]}
+            case = {"assembly": label(a0), "mode": "thermal-call-pattern", "pattern": pattern, "leg": "back", "T": temps[0]}
             try:
                 with common.quiet():
                     chg.performThermalAxialExpansion(a, list(np.linspace(0.0, H0, 3000)), [temps[0]] * 3000, setFuel=True)
@@ -999,6 +1785,7 @@ def run_targets(ctx):
     assems = list(fx["assems"])
     with common.quiet():
         assems += [build_assembly(k, [16.0] * (len(k) + 1)) for k in BUILT_STACKS[:6]]
+    assems += top_pool(ctx)       # dummy blocks that carry solids (with and without a designated target)
     seen = set()
     for a0 in assems:
         for ib, b0 in enumerate(a0):
@@ -1041,7 +1828,7 @@ def run_targets(ctx):
                     else:
                         hits = [k for k, c in enumerate(children) if c.name == explicit]
                         ex = str(hits[0]) if len(hits) == 1 else "x"
-                    case = {"assembly": a0.getType(), "block": b0.getType(), "explicit": explicit, "surgery": surgery,
+                    case = {"assembly": label(a0), "block": b0.getType(), "explicit": explicit, "surgery": surgery,
                             "setFuel": setFuel, "children": [c.name for c in children]}
                     try:
                         with common.quiet():
@@ -1141,6 +1928,16 @@ def compare_links(ctx):
     req, chk = LINK
     model = lean_run("AxialExp", req)
     for (case, impl), line, rq in zip(chk, model, req):
+        if isinstance(impl, tuple):         # a list of numbers, compared numerically
+            try:
+                vals = common.parse_list(line) if line.startswith("[") else None
+                okk = vals is not None and len(vals) == len(impl[1]) and all(relclose(y, x, 1e-12) for x, y in zip(vals, impl[1]))
+            except Exception:  # noqa
+                okk = False
+            if not okk:
+                ctx.disagree("Model/AxialExp.lean blockTemps vs updateComponentTempsBy1DTempField", dict(case, request=rq[:300]),
+                             line[:300], str(impl[1])[:300])
+            continue
         if line != impl:
             ctx.disagree("Model/Linkage.lean vs AssemblyAxialLinkage / ExpansionData target selection",
                          dict(case, request=rq[:300]), line[:300], impl[:300])
@@ -1153,17 +1950,25 @@ def compare_links(ctx):
 def run(ctx):
     del LINK[0][:], LINK[1][:]
     collect = ([], [])
+    del ROUTES[0][:], ROUTES[1][:]
     run_targets(ctx)
     run_link_pairs(ctx)
+    run_store(ctx)
+    run_blocktemps(ctx)
+    run_thermal_dispatch(ctx)
     run_built(ctx, collect)
     run_state_carry(ctx, collect)
+    run_reuse(ctx, collect)
     run_thermal_patterns(ctx, collect)
     run_rejects(ctx, collect)
+    run_cold_to_hot(ctx)
+    run_core_mesh(ctx)
     run_zero_celsius(ctx, collect)
     run_small_steps(ctx, collect)
     run_sequences(ctx, ctx.pick(150, 1500), collect)
     compare(ctx, *collect)
     compare_links(ctx)
+    compare_routes(ctx)
     ctx.rule = ("one case = one real expansion (assembly type of the detailedAxialExpansion fixture, history of earlier "
                 "expansions on the same object, mode uniform / per-component / inverse pair / thermal, percent vector or "
                 "temperature field); sequences of 1-5 expansions on one deep copy; closed isothermal cycles through exactly "
@@ -1173,7 +1978,15 @@ def run(ctx):
                 "(incl. a solid Custom-material fuel target) with HoledHexagon / HexHoledCircle targets above Hexagon / Circle components (and the reverse, and same-class "
                 "controls) under differential expansion, with linkage mutuality/symmetry clauses; one changer reused for successive "
                 "calls naming different component subsets, then the exact inverse, against a fresh changer per call; plus refused calls (non-positive factor, growth the dummy block "
-                "cannot absorb, negative height of a thin block).")
+                "cannot absorb, negative height of a thin block). Every stream also draws assemblies whose top dummy block carries "
+                "solid components (duct / socket / duct+socket / duct+socket+ring / duct designated as target; added to fixture "
+                "copies, built through the constructors, and loaded from an edited blueprint copy). One ExpansionData re-used for "
+                "3-8 successive setExpansionFactors + axiallyExpandAssembly steps in five patterns (grow-hold-shrink, g-1-1-h, one "
+                "group per step with all others exactly 1.0, subsets of components, subsets of blocks), each step also through a "
+                "fresh ExpansionData on a twin and the whole history through the model's runReuse / runFresh; setExpansionFactors "
+                "call sequences (valid with repeats and exact 1.0, zero / negative factor, different lengths) with every stored "
+                "factor read back; temperature grids (fine, block boundaries, coarse, short, jittered, unequal lengths) through "
+                "updateComponentTempsBy1DTempField.")
 
 
 def search(ctx, disagreements, broken):
